@@ -2,7 +2,7 @@
 # tools/sweep.sh <tier> <seed>...   runs every enabled check at every seed against /repo; prints one line per run
 tier="$1"; shift
 cd "$(dirname "$0")/.."
-out=work/sweep.$tier.$(date +%s).txt; : > $out
+mkdir -p work; out=work/sweep.$tier.$(date +%s).txt; : > $out
 for s in "$@"; do
   for p in $(cat ENABLED); do
     t0=$(date +%s)
